@@ -669,11 +669,25 @@ def np_minimum(eng, args, kwargs):
 
 
 def np_asarray(eng, args, kwargs):
+    """np.asarray(a[, dtype]): an ndarray argument is returned ITSELF (no copy) unless a different dtype is requested"""
     v = args[0]
     if isinstance(v, (NArr, SArr)) and "dtype" not in kwargs and len(args) == 1:
         return v
-    from .npmodels import _np_array
+    from .npmodels import _np_array, kind_of_dtype
 
+    dt = kwargs.get("dtype", args[1] if len(args) > 1 else None)
+    if isinstance(v, (NArr, SArr)) and dt is not None and set(kwargs) <= {"dtype"} and len(args) <= 2:
+        have = getattr(v, "dtype", None)
+        if have is not None:
+            if np.dtype(have) == np.dtype(dt):
+                eng.assumptions.add("numpy-model:np.asarray(a, dtype) returns a itself when a already has that dtype")
+                return v
+        elif kind_of_dtype(dt) == v.kind:
+            # the array's width is not recorded (only int / real / bool): numpy hands back the argument itself exactly when its dtype
+            # is already the requested one -- both outcomes are explored
+            eng.assumptions.add("numpy-model:np.asarray(a, dtype) returns a itself when a already has that dtype (unrecorded width: both cases explored)")
+            if eng.branch(fresh("bool", "asarray_dtype_already_matches")):
+                return v
     return _np_array(eng, args, kwargs)
 
 
